@@ -70,6 +70,10 @@ func c10Messages() []c10Msg {
 			p["context"] = map[string]interface{}{"triggerKind": 1}
 			return raw(s, "textDocument/completion", p)
 		}},
+		{"documentColor", false, func(s *drv.Server) string {
+			return raw(s, "textDocument/documentColor", map[string]interface{}{"textDocument": map[string]interface{}{"uri": s.URI("a.lua")}})
+		}},
+		{"highlight", false, func(s *drv.Server) string { return raw(s, "textDocument/documentHighlight", pos(s, "a.lua", 3, 7)) }},
 		{"hover-b", false, func(s *drv.Server) string { return raw(s, "textDocument/hover", pos(s, "b.lua", 0, 7)) }},
 		{"didChange", true, func(s *drv.Server) string { s.ChangeFull("a.lua", c10AChanged); return "" }},
 		{"didSave", true, func(s *drv.Server) string {
